@@ -10,12 +10,15 @@ MANIFEST = dict(
          "floor(balance/200 LEMO) for registered candidates, 0 otherwise, never negative) on the ledger model of the two cooperating mechanisms "
          "(per-vote adjustment, end-of-block adjustment by net balance change) for all blocks of up to 3 transactions mixing transfers into / out "
          "of voters (fees and amounts straddling the 200-LEMO boundary), vote, re-vote, register, top-up, unregister on the same accounts, over 2 "
-         "blocks; every transition is executed on real nodes (real signed transactions, real BlockAssembler block after every step, second real "
+         "blocks in the middle of a term, and over the interim block, the REWARD block (term reward issue, deferred deposit refunds, then the "
+         "vote-by-balance pass) and the block after it around a term boundary (unregistering deferred by the interim period / for deputies "
+         "of the signing term, reward set through the precompile); every transition is executed on real nodes (real signed transactions, real BlockAssembler block after every step, second real "
          "node through DPoVP.InsertBlock) and TLC evaluates the formula on the REAL votes / voteFor / deposit / registration / balances of the whole "
          "universe read at every block.",
     note="The formula is evaluated on real state only; after a block accepted under the listed deviation the following blocks are compared with the "
          "recomputed tally of that block's transactions (so further divergences are still reported). The income account is a voter too (fees move "
-         "its weight). Deputies elected with a deposit (deferred refund) need a term change and are not reached. "
+         "its weight). Term boundary: term / interim duration shrunk to 5-6 / 1-2 blocks, the (empty) snapshot block is part of the setup chain; "
+         "the design run also shows that a vote pass placed before the refunds violates the formula (mutant Mut_VotePassBeforeRefund). "
          "Known defect carried as deviation Dev_VoteUsesPreTxBalance.",
     technique="TLA+ model checking (Ledger.tla over LedgerOps.tla) + replay of the TLC state graph and simulated behaviours on real nodes "
               "(adapter ledger) + TLC trace validation (TraceLedger.tla, Check = C11)")
@@ -23,4 +26,6 @@ MANIFEST = dict(
 
 def run(ctx):
     ledger_common.run(ctx, "C11", exhaustive=dict(quick="c11_quick", thorough="c11_thorough"),
-                      negatives=[("c11_neg", ["VotesAtBoundary"])], sim="c11_sim", sim_quick=150, sim_thorough=3000, depth=9)
+                      negatives=[("c11_neg", ["VotesAtBoundary"]), ("c11_negterm", ["VotesAtBoundary"])],
+                      sim="c11_sim", sim_quick=150, sim_thorough=3000, depth=9,
+                      term=dict(graph=dict(quick="c11_term", thorough="c11_term_thorough"), sim="c11_simterm", sim_quick=64, sim_thorough=800, depth=10))
